@@ -574,6 +574,96 @@ def element_api(ctx, L):
         ctx.violation(key, rep, True, "Particle element API: " + rep["what"])
 
 
+# ----------------------------------------------------------------------------- the k-th planet: primary / jacobi_masses
+def nbody_roundtrips(ctx, L, drv_run):
+    """k-th planet (k = 1..4) created in a simulation that already holds k-1 massive planets, with the orbit's size given
+    as a or P and its phase as f / M / E / l / theta / T, jacobi_masses False / True, primary default / explicit
+    particles[0] (a copy) / explicit centre of mass; read back with the MATCHING primary and mass convention."""
+    rb = L.rebound
+    clib = L.clib
+    clib.reb_simulation_com.restype = rb.Particle
+    rng = ctx.rng
+    fails = {}
+    c_cases = []
+    for rep in range(ctx.scale(1, 6)):
+      for k in (1, 2, 3, 4):
+        for size in ("a", "P"):
+            for an in ("f", "M", "E", "l", "theta", "T"):
+                for jm in (False, True):
+                    for pmode in ("default", "particle", "com"):
+                        if jm and pmode != "default":
+                            continue           # jacobi_masses replaces the mass of the primary: documented for the default primary
+                        sim = rb.Simulation()
+                        sim.G = rng.choice([1.0, 39.47841760435743])
+                        sim.t = rng.choice([0.0, 2.5, -1.5])
+                        sim.add(m=rng.uniform(0.5, 2))
+                        for j in range(k - 1):
+                            sim.add(m=10 ** rng.uniform(-3.5, -2.3), a=1.0 + 0.6 * j, e=rng.uniform(0, 0.05), f=rng.uniform(0, 6))
+                        masses0 = [p.m for p in sim.particles]
+                        m = rng.choice([0.0, 10 ** rng.uniform(-5, -3)])
+                        e, inc, Om, om = rng.uniform(0.05, 0.5), rng.uniform(0.1, 1.0), rng.uniform(0.3, 6), rng.uniform(0.3, 6)
+                        val = rng.uniform(3, 6) if size == "a" else rng.uniform(4, 25)
+                        av = rng.uniform(0.3, 6) if an != "T" else sim.t + rng.uniform(-1.5, 1.5)
+                        kw = {"m": m, size: val, "e": e, "inc": inc, "Omega": Om, "omega": om, an: av}
+                        if pmode == "particle":
+                            prim = sim.particles[0].copy(); kw["primary"] = prim
+                        elif pmode == "com":
+                            prim = clib.reb_simulation_com(ctypes.byref(sim)); kw["primary"] = prim
+                        else:
+                            prim = None
+                        desc = {"kind": "nbody", "k": k, "size": size, "anomaly": an, "jacobi_masses": jm, "primary": pmode,
+                                "G": sim.G, "t": sim.t, "masses": masses0, "kw": {a: b for a, b in kw.items() if a != "primary"}}
+                        ctx.evaluations += 1
+                        try:
+                            sim.add(jacobi_masses=jm, **kw)
+                        except Exception as ex:
+                            fails.setdefault("nbody:rejected", dict(desc, what="valid request rejected: %r" % (ex,)))
+                            continue
+                        if [p.m for p in sim.particles][:len(masses0)] != masses0:
+                            fails.setdefault("nbody:masses-changed", dict(desc, what="adding a particle changed the masses of existing particles",
+                                                                          after=[p.m for p in sim.particles]))
+                        p = sim.particles[sim.N - 1]
+                        if jm:
+                            o = sim.orbits(jacobi_masses=True)[sim.N - 2]
+                        elif prim is None:
+                            o = p.orbit()
+                        else:
+                            o = p.orbit(primary=prim)
+                        bad = []
+                        if size == "a" and abs(o.a - val) > 1e-9 * val: bad.append(("a", o.a, val))
+                        if size == "P" and abs(o.P - val) > 1e-9 * val: bad.append(("P", o.P, val))
+                        if abs(o.e - e) > 1e-9: bad.append(("e", o.e, e))
+                        if abs(o.inc - inc) > 1e-7: bad.append(("inc", o.inc, inc))
+                        if angdiff(o.Omega, Om) > 1e-7: bad.append(("Omega", o.Omega, Om))
+                        if angdiff(o.omega, om) > 1e-6: bad.append(("omega", o.omega, om))
+                        got = {"f": o.f, "M": o.M, "l": o.l, "theta": o.theta, "T": o.T}.get(an)
+                        if an == "E":
+                            got = math.atan2(math.sqrt(1 - o.e ** 2) * math.sin(o.f), o.e + math.cos(o.f))
+                        if an == "T":
+                            dd = math.fmod(got - av, o.P); dd = min(abs(dd), abs(abs(dd) - abs(o.P)))
+                            if dd > 1e-6 * abs(o.P): bad.append(("T", got, av))
+                        elif angdiff(got, av) > 1e-5: bad.append((an, got, av))
+                        if bad:
+                            fails.setdefault("nbody:roundtrip", dict(desc, what="k-th planet: %s not read back" % ", ".join(b[0] for b in bad), mismatches=bad))
+                        # the same request through C (reb_simulation_add_fmt has no jacobi_masses; its default primary is the same centre of mass)
+                        if not jm and drv_run is not None and len(c_cases) < 400:
+                            cm = prim if prim is not None else None
+                            c_cases.append((desc, kw, sim, p))
+    # creating a particle must not modify the particles that are already there (primary passed as a member of the simulation)
+    for jm in (False, True):
+        sim = rb.Simulation(); sim.add(m=1.0); sim.add(m=1e-3, a=1.0)
+        before = [p.m for p in sim.particles]
+        ctx.evaluations += 1
+        sim.add(m=1e-3, a=2.0, primary=sim.particles[0], jacobi_masses=jm)
+        after = [p.m for p in sim.particles][:2]
+        if after != before:
+            fails.setdefault("nbody:primary-mass-modified", {"kind": "nbody", "jacobi_masses": jm, "before": before, "after": after,
+                "what": "sim.add(m=1e-3, a=2., primary=sim.particles[0], jacobi_masses=%s) changed particles[0].m" % jm})
+    for key, rep in fails.items():
+        ctx.violation(key, rep, True, "k-th planet with primary / jacobi_masses: " + rep["what"])
+    ctx.nontrivial.add(("nbody",))
+
+
 def search(ctx, L):
     nk = kepler_search(ctx, L)
     rng = ctx.rng
@@ -608,6 +698,7 @@ def search(ctx, L):
         ctx.violation(key, rep, True, "Pal element round trip fails: " + rep["failures"][0]["what"])
     reject_sweep(ctx, L)
     element_api(ctx, L)
+    nbody_roundtrips(ctx, L, None)
     ctx.extra["searcher"] = {"kepler_points": nk, "roundtrips": nrt, "roundtrip_classes": kinds}
 
 
